@@ -95,7 +95,7 @@ func bidKey(b types.BlockID) string {
 //  2. a precommit for block B at (H,R) only after the complete block B and
 //     prevotes for B in round R from > 2/3 of the power were delivered;
 //  3. after a precommit for B at round r, a prevote for X != B at r' > r only if
-//     for some r'' in (r, r'] prevotes for a single Y != B (nil included) from
+//     for some r” in (r, r'] prevotes for a single Y != B (nil included) from
 //     > 2/3 of the power had been delivered.
 //
 // Quorums are recomputed from the delivery journal with big integers; votes
